@@ -1,4 +1,7 @@
+#[cfg(not(arimaa_engine_step_verif))]
 use std::sync::Arc;
+#[cfg(arimaa_engine_step_verif)]
+use verif_seam::Arc;
 
 #[derive(Debug, Default)]
 pub struct List<T> {
